@@ -20,7 +20,8 @@ labels) ; `bUnlock` ; loop `bDec` (`uatomic_dec(&futex)`; mb) `bLdCnt` (`barrier
 
 Ghost: `cov b id` = user callback `id` was queued and not finished when barrier `b` was called;
 `mdone b h` / `mput b h` = the marker of `b` queued on `h` has decremented the count / dropped its
-reference; `uaf` = some step touched a completion object after it was freed.
+reference; `mrun h` = tag of the marker helper `h` is running (recorded when the helper invokes it; equals
+`curMark`); `uaf` = some step touched a completion object after it was freed.
 -/
 namespace UrcuVerif.CallRcu
 
@@ -50,6 +51,7 @@ structure BState where
   mput    : Nat → Nat → Bool
   cput    : Nat → Bool           -- the caller dropped its reference
   mpc     : Nat → MPc
+  mrun    : Nat → Option (Nat × Nat)   -- ghost: (barrier, helper) tag of the marker callback helper h is running (= `curMark`)
   returned : Nat → Bool
   uaf     : Bool
   refused : Nat
@@ -58,7 +60,7 @@ def binit : BState :=
   { base := init, bpc := fun _ => .idle, nextB := 0, caller := fun _ => 0, cnt := fun _ => 0, fut := fun _ => 0,
     ref := fun _ => 0, bfreed := fun _ => false, cov := fun _ _ => false, hs := fun _ => [], todo := fun _ => [], mid := fun _ _ => 0,
     inited := fun _ => false, mdone := fun _ _ => false, mput := fun _ _ => false, cput := fun _ => false,
-    mpc := fun _ => .idle, returned := fun _ => false, uaf := false, refused := 0 }
+    mpc := fun _ => .idle, mrun := fun _ => none, returned := fun _ => false, uaf := false, refused := 0 }
 
 inductive BLabel
   | base (l : Label)
@@ -85,11 +87,15 @@ def bstep (c : Cfg) (s : BState) : BLabel → Option BState
   | .base l =>
     if l.isHook = true then none else
     match l with
+    | .hRunBegin h cb =>
+      match step c s.base l with
+      | some b' => some { s with base := b', mrun := upd s.mrun h (s.base.mark cb) }
+      | none => none
     | .hRunEnd h =>
       -- `_rcu_barrier_complete` has to be done before the helper goes on
-      if (curMark s.base h).isSome = true ∧ s.mpc h ≠ .fin then none else
+      if (s.mrun h).isSome = true ∧ s.mpc h ≠ .fin then none else
       match step c s.base l with
-      | some b' => some { s with base := b', mpc := upd s.mpc h .idle }
+      | some b' => some { s with base := b', mpc := upd s.mpc h .idle, mrun := upd s.mrun h none }
       | none => none
     | _ =>
       match step c s.base l with
@@ -176,7 +182,7 @@ def bstep (c : Cfg) (s : BState) : BLabel → Option BState
     | _ => none
   -- ---------------------------------------------------------------- _rcu_barrier_complete on helper h
   | .mSub h =>
-    match curMark s.base h with
+    match s.mrun h with
     | some (b, h') =>
       if s.mpc h = .idle then
         some { s with cnt := upd s.cnt b (s.cnt b - 1), mdone := upd2 s.mdone b h' true,
@@ -184,19 +190,19 @@ def bstep (c : Cfg) (s : BState) : BLabel → Option BState
       else none
     | none => none
   | .mLdFut h =>
-    match curMark s.base h with
+    match s.mrun h with
     | some (b, _) =>
       if s.mpc h = .ldFut then
         some { s with mpc := upd s.mpc h (if s.fut b = -1 then .stFut else .put), uaf := s.uaf || s.bfreed b }
       else none
     | none => none
   | .mStFut h =>
-    match curMark s.base h with
+    match s.mrun h with
     | some (b, _) =>
       if s.mpc h = .stFut then some { s with mpc := upd s.mpc h .wake, fut := upd s.fut b 0, uaf := s.uaf || s.bfreed b } else none
     | none => none
   | .mWake h =>
-    match curMark s.base h with
+    match s.mrun h with
     | some (b, _) =>
       if s.mpc h = .wake then
         some { s with mpc := upd s.mpc h .put,
@@ -204,7 +210,7 @@ def bstep (c : Cfg) (s : BState) : BLabel → Option BState
       else none
     | none => none
   | .mPut h =>
-    match curMark s.base h with
+    match s.mrun h with
     | some (b, h') =>
       if s.mpc h = .put then
         some { s with mpc := upd s.mpc h .fin, ref := upd s.ref b (s.ref b - 1), mput := upd2 s.mput b h' true,
